@@ -105,6 +105,28 @@ class OrderTaint:
                     return self._ref_target(b, c["a"][0][1][0], depth + 1)
         return None
 
+    def _total_sort(self, b, c):
+        """a sort sanitizes only if its key can be total on the elements: `sort_by_key(|x| <constants chosen by a
+        match/if>)` ranks elements into a few classes and (being stable) keeps the incoming order inside a class"""
+        callee = c.get("r") or c.get("f") or ""
+        if not callee.endswith(("_by_key", "_by_cached_key")) or len(c["a"]) < 2:
+            return True
+        l = dataflow.operand_local(c["a"][1])
+        if l is None:
+            return True
+        t = b.local_ty(l)
+        if t[2] != "closure" or t[3] not in self.F.bodies:
+            return True
+        kb = self.F.bodies[t[3]]
+        consts = 0
+        other = 0
+        for r in dataflow.roots(kb, 0):
+            if r[0] == "const":
+                consts += 1
+            else:
+                other += 1
+        return not (consts >= 2 and other == 0)
+
     def extra_defs(self, b):
         """local -> [(bb, kind, callinfo)] for sort (kind 'sort') and mutator calls (kind 'mut') on that local"""
         if b.id in self._extra:
@@ -208,10 +230,18 @@ class OrderTaint:
         extra = self.extra_defs(b).get(local, [])
         # sanitizing sorts that dominate the use kill every definition that happens before them
         kills = [bb for bb, kind, c, _ in extra if kind == "sort" and use_bb is not None and bb != use_bb
-                 and cfgutil.dominates(idom, bb, use_bb)]
+                 and cfgutil.dominates(idom, bb, use_bb) and self._total_sort(b, c)]
+
+        succ_ = b.succ_map()
 
         def killed(dbb):
-            return any(cfgutil.dominates(idom, dbb, k) for k in kills)
+            # the definition happens before the (use-dominating) sort and cannot happen again after it
+            for k in kills:
+                if dbb == k:
+                    continue
+                if k in cfgutil.reachable(succ_, dbb) and dbb not in cfgutil.reachable(succ_, k):
+                    return True
+            return False
 
         for dbb, d in defs:
             if killed(dbb):
@@ -223,8 +253,11 @@ class OrderTaint:
         for bb, kind, c, idx_op in extra:
             if kind == "mut" and not killed(bb):
                 # the pushed / inserted values: order of arrival matters when the call sits in a tainted loop
-                for a in c["a"][1:]:
-                    out |= self.operand(b, a, bb, depth + 1)
+                # merging another sequence in (extend/append) imports that sequence's order; pushing a single element
+                # does not: which element arrives when is the loop driver's business
+                if (c.get("r") or c.get("f") or "").endswith(("::extend", "::append", "::extend_from_slice")):
+                    for a in c["a"][1:]:
+                        out |= self.operand(b, a, bb, depth + 1)
                 driver = self._loop_driver(b, bb, local, c, depth)
                 if idx_op is not None and driver:
                     # `slots[f(x)].push(..)` inside `for x in hash_iter`: the slot, not the arrival order, is chosen
@@ -232,7 +265,8 @@ class OrderTaint:
                     il = self.operand(b, idx_op[1], idx_op[0], depth + 1)
                     if {d for d in driver if d[0] == "HASH"} <= il:
                         driver = set()
-                out |= driver
+                # remember which container materialised the hash order (used for exact exception keys)
+                out |= {d if len(d) > 4 else d + (b.local_name(local) or "_%d" % local,) for d in driver}
         if 1 <= local <= b.argc and not kills:
             out |= self._arg(b, local, depth)
         if self.memo.get(key) != out:
